@@ -106,7 +106,18 @@ class Multi(Histories):
         nb = [{'name': 'c1', 'data': {'uses': 'mid.json as a'}}, {'name': 'c2', 'data': {'uses': 'pipe.json as c'}}]
         n['ops'] = [{'op': 'build', 'base': nb[1]}, {'op': 'multi', 'bases': nb}, {'op': 'value', 'chain': 1, 'pick': 1},
                     {'op': 'value', 'chain': 2, 'pick': 1}, {'op': 'value', 'chain': 0, 'pick': 1}]
-        return [c, d, g, n]
+        # one pipeline mounted as `a` in the first config and as `b` in the second, where `a` is another pipeline with the
+        # same task names: the shared objects of the small pipeline keep their own upstream in both chains
+        sm = [dict(K(0, 'Source', params=[P('size')]), name='source'), dict(K(1, 'Model', meta_inputs=[{'cls': 0}]), name='model')]
+        sfiles = {'small.json': {'tasks': ['@M.*'], 'size': 1}, 'big.json': {'tasks': ['@M.*'], 'size': 100}}
+        sb = [{'name': 'one', 'data': {'uses': ['small.json as a']}},
+              {'name': 'two', 'data': {'uses': ['small.json as b', 'big.json as a']}}]
+        sh = dict(classes=sm, files=sfiles, base=sb[0], context=None)
+        sh['ops'] = [{'op': 'build', 'base': sb[1]}, {'op': 'build', 'base': sb[0]}, {'op': 'multi', 'bases': sb}] + \
+                    [{'op': 'value', 'chain': ch, 'pick': k} for ch in (2, 3) for k in range(4)] + \
+                    [{'op': 'restart'}, {'op': 'multi', 'bases': sb[::-1]}] + \
+                    [{'op': 'value', 'chain': ch, 'pick': k} for ch in (0, 1) for k in range(4)]
+        return [c, d, g, n, sh]
 
     def oracle(self, case, obs):
         m = multi_oracle(case, obs)
